@@ -269,6 +269,7 @@ def gen_labels():
     out = HEADER.format(src="models/base.py (+ keyword.kwlist and builtins of /venv/bin/python)")
     out += "Definition blacklist : list str :=\n  [" + ";\n   ".join(coq_str(w) for w in bl) + "].\n"
     out += "Definition ones : list str := [" + "; ".join(coq_str(w) for w in ones) + "].\n"
+    out += "Definition keywords : list str := [" + "; ".join(coq_str(w) for w in sorted(keyword.kwlist)) + "].\n"
     out += f"Definition METADATA_FIELD_NAME : str := {coq_str(meta_name)}.\n"
     return out
 
